@@ -841,3 +841,41 @@ def build15(m):
         modifies=['self.column_align', 'self.header', 'self.children', 'N:TableRow.line_number'],
         prop=['C01', 'C13'],
         note='requires: Table.read returns at least the header and the delimiter row'))
+
+
+def build16(m):
+    """TableRow.__init__ (C13): the row and every cell built for it report the row's line; the row
+    has one cell per column or per source cell, whichever is more."""
+    def method(cls, name, c, static=False, classmethod_=False):
+        m.methods[(cls, name)] = c.key
+        c.is_static = static
+        c.is_classmethod = classmethod_
+        m.add(c)
+        return c
+    ROW = TRef('TableRow')
+    CELL = TRef('TableCell')
+    ALIGN = TList(TOpt(INT))
+    m.classes['TableRow'] = {'line_number': INT, 'row_align': ALIGN, 'children': TList(CELL)}
+    m.classes['TableCell'] = {'line_number': INT}
+    ns = m.namespaces[MOD]
+    ns['TableCell'] = ('class', 'TableCell')
+    ns['zip_longest'] = ('builtin_like', 'zip_longest')
+    m.class_attrs[('TableRow', 'split_pattern')] = ('const', mk_obj('pattern', 'TableRow.split_pattern'))
+    m.class_attrs[('TableRow', 'escaped_pipe_pattern')] = ('const', mk_obj('pattern', 'TableRow.escaped_pipe_pattern'))
+    m.add(Contract('re:TableRow.split_pattern.split', [('s', STR)], returns=TList(STR), trusted=True, pure=True,
+                   ensures=['len(result) >= 1'], note='A5: re.split returns at least one piece'))
+    m.add(Contract('re:TableRow.escaped_pipe_pattern.sub', [('repl', STR), ('s', STR)], returns=STR, trusted=True, pure=True,
+                   note='A5: re.sub returns a string'))
+    method('TableCell', '__init__', Contract(
+        MOD + ':TableCell.__init__', [('self', CELL), ('content', STR), ('align', TOpt(INT), NONE_VAL), ('line_number', INT, mk_int(0))],
+        trusted=True, ensures=['self.line_number == line_number'], modifies=['self.line_number'],
+        note='TableCell.__init__ stores its line_number argument; its inline content is parsed by span_token.tokenize_inner'))
+    c = m.contracts[MOD + ':TableRow.__init__']
+    c.trusted = False
+    c.note = 'verified (comprehension of TableCell constructors over zip_longest)'
+    c.ensures = ['self.line_number == line_number',
+                 ('forall(lambda i: self.children[i].line_number == line_number, 0, len(self.children))', 'C13'),
+                 ('len(self.children) >= len(self.row_align)', 'C12')]
+    c.modifies = ['self.line_number', 'self.row_align', 'self.children', 'N:TableCell.line_number']
+    c.prop = ['C01', 'C13']
+    c.body_types = {}
